@@ -56,6 +56,8 @@ type vcbCase struct {
 	Split    []int             `json:"split"`
 	NG       int               `json:"ng"`
 	Fail     string            `json:"fail"`
+	BSel     string            `json:"bsel"`    // shapes sbr / nsbr: what the branch on START does: node | end | fail | int
+	BStream  bool              `json:"bstream"` // the branch condition is given in its stream form
 	Sched    [][]string        `json:"sched"`
 	Mode     string            `json:"mode"`  // invoke | stream
 	Kinds    map[string]string `json:"kinds"` // leaf unit -> i | s | t
@@ -266,6 +268,8 @@ func (s *vcbSeq) gate(name, class string) {
 	if class == "startR" {
 		s.arriveL(u)
 	} else {
+		// the unit's thread is past its start scan (a graph unit whose run ends inside its START step has no child that says so)
+		s.completeL(u.U + "/startR")
 		s.completeL(u.U + "/endW")
 	}
 	s.mu.Unlock()
@@ -589,7 +593,174 @@ func (r *vcbRun) buildGraph(gid string) (*Graph[string, map[string]any], error) 
 func (r *vcbRun) emitCase() {
 	c := r.c
 	r.rec.log("case", map[string]any{"id": c.ID, "shape": c.Shape, "handlers": c.Handlers, "units": c.Units, "ends": c.Ends,
-		"split": c.Split, "ng": c.NG, "fail": c.Fail, "sched": c.Sched, "mode": c.Mode, "kinds": c.Kinds, "pol": c.Pol, "hb": c.HB})
+		"split": c.Split, "ng": c.NG, "fail": c.Fail, "bsel": c.BSel, "bstream": c.BStream, "sched": c.Sched, "mode": c.Mode,
+		"kinds": c.Kinds, "pol": c.Pol, "hb": c.HB})
+}
+
+type vcbStore struct {
+	mu sync.Mutex
+	m  map[string][]byte
+}
+
+func (s *vcbStore) Get(_ context.Context, id string) ([]byte, bool, error) {
+	s.mu.Lock()
+	defer s.mu.Unlock()
+	v, ok := s.m[id]
+	return v, ok, nil
+}
+
+func (s *vcbStore) Set(_ context.Context, id string, v []byte) error {
+	s.mu.Lock()
+	defer s.mu.Unlock()
+	s.m[id] = append([]byte{}, v...)
+	return nil
+}
+
+// shapes sbr / nsbr: graph `gid` = one leaf + a branch on START with the targets {leaf, END}; what the branch does is c.BSel.
+// A run of this graph can end inside the initial START step of runner.run (END selected directly, failing condition,
+// interrupt-before hit on the selected leaf).
+func (r *vcbRun) buildBranchGraph(gid string) (*Graph[string, string], string, error) {
+	g := NewGraph[string, string]()
+	var leaf *vcbUnit
+	for i := range r.c.Units {
+		if r.c.Units[i].Parent == gid && !r.c.Units[i].Graph {
+			leaf = &r.c.Units[i]
+		}
+	}
+	if leaf == nil {
+		return nil, "", fmt.Errorf("no leaf under %s", gid)
+	}
+	key := leaf.Path[len(leaf.Path)-1]
+	if err := g.AddLambdaNode(key, r.leafLambda(leaf), WithNodeName(leaf.Name)); err != nil {
+		return nil, "", err
+	}
+	decide := func(in string) (string, error) {
+		if gid != "top" {
+			r.rec.log("enter", map[string]any{"u": gid, "in": in})
+		}
+		switch r.c.BSel {
+		case "end":
+			return END, nil
+		case "fail":
+			if gid != "top" {
+				r.rec.log("exit", map[string]any{"u": gid, "out": "", "fail": true})
+			}
+			return "", errVcbInjected
+		}
+		return key, nil
+	}
+	ends := map[string]bool{key: true, END: true}
+	var br *GraphBranch
+	if r.c.BStream {
+		br = NewStreamGraphBranch(func(ctx context.Context, sr *schema.StreamReader[string]) (string, error) {
+			in := ""
+			for {
+				x, err := sr.Recv()
+				if err == io.EOF {
+					break
+				}
+				if err != nil {
+					sr.Close()
+					return "", err
+				}
+				in += x
+			}
+			sr.Close()
+			return decide(in)
+		}, ends)
+	} else {
+		br = NewGraphBranch(func(ctx context.Context, in string) (string, error) { return decide(in) }, ends)
+	}
+	if err := g.AddBranch(START, br); err != nil {
+		return nil, "", err
+	}
+	if err := g.AddEdge(key, END); err != nil {
+		return nil, "", err
+	}
+	return g, key, nil
+}
+
+// compiles the graph of shapes sbr / nsbr and returns a function that performs the call
+func (r *vcbRun) compileBranchShape() (func(opts []Option) (map[string]any, error), error) {
+	c := r.c
+	var g *Graph[string, string]
+	var copts []GraphCompileOption
+	var callOpts []Option
+	copts = append(copts, WithGraphName("N_top"))
+	if c.Shape == "sbr" {
+		bg, key, err := r.buildBranchGraph("top")
+		if err != nil {
+			return nil, err
+		}
+		g = bg
+		if c.BSel == "int" {
+			copts = append(copts, WithCheckPointStore(&vcbStore{m: map[string][]byte{}}), WithInterruptBeforeNodes([]string{key}))
+			callOpts = append(callOpts, WithCheckPointID("cp-"+c.ID))
+		}
+	} else {
+		var sub *vcbUnit
+		for i := range c.Units {
+			if c.Units[i].Graph && c.Units[i].Parent == "top" {
+				sub = &c.Units[i]
+			}
+		}
+		if sub == nil {
+			return nil, fmt.Errorf("no nested graph unit")
+		}
+		bg, _, err := r.buildBranchGraph(sub.U)
+		if err != nil {
+			return nil, err
+		}
+		g = NewGraph[string, string]()
+		skey := sub.Path[len(sub.Path)-1]
+		if err := g.AddGraphNode(skey, bg, WithNodeName(sub.Name)); err != nil {
+			return nil, err
+		}
+		if err := g.AddEdge(START, skey); err != nil {
+			return nil, err
+		}
+		if err := g.AddEdge(skey, END); err != nil {
+			return nil, err
+		}
+	}
+	run, err := g.Compile(context.Background(), copts...)
+	if err != nil {
+		return nil, err
+	}
+	return func(opts []Option) (map[string]any, error) {
+		opts = append(append([]Option{}, opts...), callOpts...)
+		var out string
+		var err error
+		if c.Mode == "stream" {
+			var sr *schema.StreamReader[string]
+			sr, err = run.Stream(context.Background(), "x", opts...)
+			if err == nil {
+				for {
+					chunk, e := sr.Recv()
+					if e == io.EOF {
+						break
+					}
+					if e != nil {
+						err = e
+						break
+					}
+					out += chunk
+				}
+				sr.Close()
+			}
+		} else {
+			out, err = run.Invoke(context.Background(), "x", opts...)
+		}
+		if err != nil {
+			return nil, err
+		}
+		// the result is a plain string: present it as {the unit that feeds END: value}; "" key when END was selected by START itself
+		k := ""
+		if len(c.Ends) == 1 {
+			k = c.Ends[0]
+		}
+		return map[string]any{k: out}, nil
+	}, nil
 }
 
 func (r *vcbRun) runCase() {
@@ -597,15 +768,51 @@ func (r *vcbRun) runCase() {
 	defer r.rec.log("done", map[string]any{})
 	note := func(msg string) { r.rec.log("note", map[string]any{"msg": msg}) }
 
-	g, err := r.buildGraph("top")
-	if err != nil {
-		note("BUILD-FAILED: " + err.Error())
-		return
-	}
-	run, err := g.Compile(context.Background(), WithGraphName("N_top"))
-	if err != nil {
-		note("BUILD-FAILED: compile: " + err.Error())
-		return
+	var err error
+	var call func(opts []Option) (map[string]any, error)
+	if c.Shape == "sbr" || c.Shape == "nsbr" {
+		call, err = r.compileBranchShape()
+		if err != nil {
+			note("BUILD-FAILED: " + err.Error())
+			return
+		}
+	} else {
+		g, berr := r.buildGraph("top")
+		if berr != nil {
+			note("BUILD-FAILED: " + berr.Error())
+			return
+		}
+		run, cerr := g.Compile(context.Background(), WithGraphName("N_top"))
+		if cerr != nil {
+			note("BUILD-FAILED: compile: " + cerr.Error())
+			return
+		}
+		call = func(opts []Option) (map[string]any, error) {
+			if c.Mode != "stream" {
+				return run.Invoke(context.Background(), "x", opts...)
+			}
+			sr, e := run.Stream(context.Background(), "x", opts...)
+			if e != nil {
+				return nil, e
+			}
+			defer sr.Close()
+			res := map[string]any{}
+			for {
+				chunk, e := sr.Recv()
+				if e == io.EOF {
+					return res, nil
+				}
+				if e != nil {
+					return nil, e
+				}
+				flat := map[string]string{}
+				vcbFlatten(chunk, flat)
+				for k, v := range flat {
+					prev, _ := res[k].(string)
+					res[k] = prev + v
+				}
+			}
+		}
 	}
 	// handlers
 	var globals, undes []callbacks.Handler
@@ -650,32 +857,7 @@ func (r *vcbRun) runCase() {
 				err = fmt.Errorf("panic: %v", p)
 			}
 		}()
-		if c.Mode == "stream" {
-			var sr *schema.StreamReader[map[string]any]
-			sr, err = run.Stream(context.Background(), "x", opts...)
-			if err == nil {
-				res = map[string]any{}
-				for {
-					chunk, e := sr.Recv()
-					if e == io.EOF {
-						break
-					}
-					if e != nil {
-						err = e
-						break
-					}
-					flat := map[string]string{}
-					vcbFlatten(chunk, flat)
-					for k, v := range flat {
-						prev, _ := res[k].(string)
-						res[k] = prev + v
-					}
-				}
-				sr.Close()
-			}
-		} else {
-			res, err = run.Invoke(context.Background(), "x", opts...)
-		}
+		res, err = call(opts)
 	}()
 	select {
 	case <-done:
@@ -694,7 +876,16 @@ func (r *vcbRun) runCase() {
 	if err == nil {
 		vcbFlatten(res, outs)
 	}
-	r.rec.log("ret", map[string]any{"err": err != nil, "out": vcbDigest(res), "outs": outs})
+	out := vcbDigest(res)
+	if c.Shape == "sbr" || c.Shape == "nsbr" {
+		// string-valued graphs: the handlers see the plain string
+		out = ""
+		for _, v := range outs {
+			out = v
+		}
+		delete(outs, "")
+	}
+	r.rec.log("ret", map[string]any{"err": err != nil, "out": out, "outs": outs})
 }
 
 func TestVerifCb(t *testing.T) {
